@@ -1191,7 +1191,9 @@ impl<'a> Exec<'a> {
         if self.flags.counters {
             let n = post.entries.len() as u64;
             if post.entry_count != n {
-                viol!("C10", step, "entry_count() = {} but the cache physically holds {} entries {:?}", post.entry_count, n, post.keys());
+                let mut held = post.keys();
+                held.truncate(20);
+                viol!("C10", step, "entry_count() = {} but the cache physically holds {} entries {:?}", post.entry_count, n, held);
             }
             if post.weighted_size != phys_w {
                 viol!("C10", step, "weighted_size() = {} but the weights of the {} held entries sum to {}", post.weighted_size, n, phys_w);
@@ -1206,18 +1208,22 @@ impl<'a> Exec<'a> {
             items.sort();
             let iter_n = items.len() as u64;
             let no_expiry = self.cfg.ttl.is_none() && self.cfg.tti.is_none();
-            if no_expiry {
+            // entry_count may additionally count only entries that are expired (or
+            // hidden by invalidate_all) but not yet purged
+            let dead_phys = post.entries.iter().filter(|e| self.dead_hi(e.k)).count() as u64;
+            let maybe_phys = post.entries.iter().filter(|e| !self.dead_hi(e.k) && !self.live_lo(e.k)).count() as u64;
+            let diff = post.entry_count.saturating_sub(iter_n);
+            if post.entry_count < iter_n || diff < dead_phys || diff > dead_phys + maybe_phys {
+                viol!("C10", step, "entry_count() = {} and iteration yields {}, but {} held entries are expired/invalidated (+{} undecided)", post.entry_count, iter_n, dead_phys, maybe_phys);
+            }
+            // without expiry nothing may stay counted once maintenance has run (fewer
+            // entries than one purge batch: bursts are exempt)
+            if no_expiry && self.burst_total == 0 {
                 let iter_w: u64 = items.iter().map(|x| weight_of(self.cfg, x.2) as u64).sum();
                 if iter_n != post.entry_count || iter_w != post.weighted_size {
-                    viol!("C10", step, "no expiry configured: entry_count/weighted_size = {}/{} but iteration yields {} entries weighing {} (held: {:?})", post.entry_count, post.weighted_size, iter_n, iter_w, post.keys());
-                }
-            } else {
-                // may additionally count only entries that are expired but not yet purged
-                let dead_phys = post.entries.iter().filter(|e| self.dead_hi(e.k)).count() as u64;
-                let maybe_phys = post.entries.iter().filter(|e| !self.dead_hi(e.k) && !self.live_lo(e.k)).count() as u64;
-                let diff = post.entry_count.saturating_sub(iter_n);
-                if post.entry_count < iter_n || diff < dead_phys || diff > dead_phys + maybe_phys {
-                    viol!("C10", step, "entry_count() = {} and iteration yields {}, but {} held entries are expired/invalidated (+{} undecided)", post.entry_count, iter_n, dead_phys, maybe_phys);
+                    let mut held = post.keys();
+                    held.truncate(20);
+                    viol!("C10", step, "no expiry configured: entry_count/weighted_size = {}/{} but iteration yields {} entries weighing {} (held: {:?})", post.entry_count, post.weighted_size, iter_n, iter_w, held);
                 }
             }
             self.stats.inc("counter_checks");
